@@ -161,6 +161,7 @@ Pred(p, v) ==
 TokNum(t) == CASE t = "a" -> 1 [] t = "b" -> 2 [] t = "c" -> 3 [] OTHER -> 0
 MapFn(f, v) ==
   CASE f = "num" -> VI(TokNum(FirstTok(v)))                     \* token -> number (length prefixes)
+    [] f = "big" -> VI(2000000000)                                \* a length prefix as large as a count can be
     [] f = "fst" -> IF v[1] = "P" THEN v[2] ELSE VM(f, v)         \* |(a, _)| a
     [] f = "snd" -> IF v[1] = "P" THEN v[3] ELSE VM(f, v)         \* |(_, b)| b
     [] OTHER -> VM(f, v)
